@@ -92,9 +92,9 @@ func init() { Register("mux", muxHarness) }
 
 func muxHarness(rc *RunCtx) {
 	tp := rc.Tape
-	nCallers := 1 + tp.Biased("cfg", 6)
-	perCaller := 1 + tp.Biased("cfg", 3)
-	s := rc.NewSim(20000, 10*time.Minute)
+	nCallers := 1 + tp.Biased("cfg", rc.Scale(6, 10))
+	perCaller := 1 + tp.Biased("cfg", rc.Scale(3, 6))
+	s := rc.NewSim(rc.Scale(20000, 60000), 10*time.Minute)
 	m := &muxState{rc: rc, s: s, byTag: map[string]*muxCall{}, bySeq: map[int]*muxDelivery{}, prof: muxProfileFor(rc.Prop)}
 	rc.Sample["callers"] = nCallers
 	rc.Sample["requests_per_caller"] = perCaller
